@@ -2077,3 +2077,1078 @@ Lemma total_energy_sum f : FInv f ->
   view_total_energy f (view_last_global f) =
   psum (fun p => energy_at p (view_last_global f)) (w_prog (fc_w f)).
 Proof. intros (_ & (_ & (_ & _ & _ & _ & HE) & _) & _). exact HE. Qed.
+
+(** ================================================================== Part D *)
+
+(** accumulations change only where a week's total is newly fixed, for the known tokens *)
+Lemma fc_hook_acc h s w e E h' s' r :
+  (forall w t, 0 <= acc_get h w t) -> NoDup (h_tokens h) ->
+  fc_hook h s w e E = Ok (h', s', r) ->
+  forall w' t, (w' <> w \/ rget (w_rewards s) w <> [] \/ rget (w_rewards s') w = [] \/ ~ In t (h_tokens h)) ->
+               acc_get h' w' t = acc_get h w' t.
+Proof.
+  intros Hnn Hnd Hh w' t Hc.
+  destruct (fc_hook_tokens _ _ _ _ _ _ _ _ Hh) as (_ & Ha).
+  destruct (Z.eq_dec w' w) as [->|Hw]; [|apply Ha; exact Hw].
+  destruct Hc as [Hc|Hc]; [contradiction|].
+  destruct (default_hook_spec _ _ _ _ _ _ _ _ _ _ Hh) as (_ & _ & _ & Hfz & Hz & Hcol).
+  destruct (rget (w_rewards s) w) as [|x0 tl0] eqn:He.
+  2:{ destruct (Hfz ltac:(discriminate)) as (_ & ->). reflexivity. }
+  destruct ((e =? 0) || (E =? 0)) eqn:Ez; [destruct (Hz eq_refl) as (_ & ->); reflexivity|].
+  specialize (Hcol eq_refl eq_refl). unfold fc_collect in Hcol. symmetry in Hcol.
+  destruct (collect_tokens_spec _ _ _ _ _ Hnd Hcol) as (Hr & Hzero & Hoth & _).
+  destruct Hc as [Hc|[Hc|Hc]]; [contradiction| |apply Hoth; right; exact Hc].
+  destruct (in_dec Z.eq_dec t (h_tokens h)) as [Hin|Hnin]; [|apply Hoth; right; exact Hnin].
+  rewrite (Hzero _ Hin). rewrite Hc in Hr.
+  (* nothing positive was collected, so the accumulation was already zero *)
+  specialize (Hnn w t). assert (acc_get h w t <= 0); [|lia].
+  clear - Hr Hin. unfold positive_part in Hr. induction (h_tokens h) as [|t0 tl IH]; simpl in *; [destruct Hin|].
+  destruct (0 <? acc_get h w t0) eqn:Ep; [discriminate|].
+  destruct Hin as [->|Hin]; [apply Z.ltb_ge in Ep; exact Ep | apply IH; assumption].
+Qed.
+
+Lemma collect_tokens_nonneg w toks : forall h h' r,
+  collect_tokens h w toks = (h', r) -> (forall w t, 0 <= acc_get h w t) -> forall w t, 0 <= acc_get h' w t.
+Proof.
+  induction toks as [|t0 tl IH]; intros h h' r1; simpl.
+  - intros Heq Hnn; inversion Heq; subst. exact Hnn.
+  - destruct (collect_tokens (acc_set h w t0 0) w tl) as [h2 r2] eqn:Ec2.
+    intros Heq Hnn; inversion Heq; subst. apply (IH _ _ _ Ec2).
+    intros w1 t1. destruct (Z.eq_dec w w1) as [->|Hw]; [destruct (Z.eq_dec t0 t1) as [->|Ht]|].
+    + rewrite acc_get_set_same. lia.
+    + rewrite acc_get_set_other by (right; exact Ht). apply Hnn.
+    + rewrite acc_get_set_other by (left; exact Hw). apply Hnn.
+Qed.
+
+Lemma fc_hook_acc_nonneg h s w e E h' s' r :
+  (forall w t, 0 <= acc_get h w t) -> fc_hook h s w e E = Ok (h', s', r) -> forall w t, 0 <= acc_get h' w t.
+Proof.
+  intros Hnn Hh. unfold fc_hook, default_user_rewards in Hh. destruct ((e =? 0) || (E =? 0)).
+  - inversion Hh; subst. exact Hnn.
+  - unfold collect_and_get in Hh. destruct (rget (w_rewards s) w).
+    + destruct (fc_collect h w) as [h1 r1] eqn:Ec. inversion Hh; subst. unfold fc_collect in Ec.
+      apply (collect_tokens_nonneg _ _ _ _ _ Ec Hnn).
+    + inversion Hh; subst. exact Hnn.
+Qed.
+
+Lemma fc_claim_weeks_acc n : forall h s p h' s' p' det,
+  0 <= en_tok (pr_en p) -> NoDup (h_tokens h) -> (forall w t, 0 <= acc_get h w t) ->
+  claim_weeks fhost fc_hook n h s p = Ok (h', s', p', det) ->
+  (forall w t, 0 <= acc_get h' w t) /\
+  (forall w t, (rget (w_rewards s) w <> [] \/ rget (w_rewards s') w = [] \/ ~ In t (h_tokens h)) ->
+               acc_get h' w t = acc_get h w t).
+Proof.
+  induction n as [|n IH]; intros h s p h' s' p' det Ht Hnd Hnn; simpl claim_weeks.
+  - intros Heq; inversion Heq; subst. split; [exact Hnn | reflexivity].
+  - intros Heq. apply bind_ok in Heq. destruct Heq as ([[[h1 s1] p1] r0] & Hs & Heq).
+    apply bind_ok in Heq. destruct Heq as ([[[h2 s2] p2] rs] & Hr & Heq). inversion Heq; subst; clear Heq.
+    unfold claim_single in Hs. apply bind_ok in Hs. destruct Hs as ([[hx sx] rx] & Hh & Hs). inversion Hs; subst; clear Hs.
+    rewrite advance_week_adv in Hr by assumption.
+    assert (Ht1 : 0 <= en_tok (pr_en (adv p 1))) by (rewrite adv_tok; exact Ht).
+    destruct (default_hook_spec _ _ _ _ _ _ _ _ _ _ Hh) as (_ & Hoth & _).
+    destruct (fc_hook_tokens _ _ _ _ _ _ _ _ Hh) as (Htok & Hacc).
+    pose proof (fc_hook_acc_nonneg _ _ _ _ _ _ _ _ Hnn Hh) as Hnn1.
+    pose proof (fc_hook_acc _ _ _ _ _ _ _ _ Hnn Hnd Hh) as Hacc1.
+    rewrite <- Htok in Hnd.
+    destruct (IH _ _ _ _ _ _ _ Ht1 Hnd Hnn1 Hr) as (IHnn & IHacc).
+    destruct (fc_claim_weeks_shares _ _ _ _ _ _ _ _ Ht1 Hr) as (_ & Hs2 & _).
+    destruct (fc_claim_weeks_host _ _ _ _ _ _ _ _ Hr) as (_ & Hacc2).
+    destruct (claim_weeks_frame fhost fc_hook fc_hook_frame _ _ _ _ _ _ _ _ Ht1 Hr) as (_ & _ & Hmap).
+    split; [exact IHnn|].
+    intros w t Hc. destruct (Z.eq_dec w (pr_week p)) as [->|Hw].
+    + assert (Hnot : ~ In (pr_week p) (zseq (pr_week (adv p 1)) n)) by (rewrite adv_week, zseq_in; lia).
+      rewrite Hacc2 by (rewrite Hmap; exact Hnot).
+      apply Hacc1. right. rewrite <- (Hs2 _ Hnot). exact Hc.
+    + rewrite IHacc.
+      * apply Hacc. exact Hw.
+      * rewrite Hoth by exact Hw. rewrite Htok. exact Hc.
+Qed.
+
+(** the week whose entries a global update drops: afterwards either untouched or (energy 0, rewards []) *)
+Lemma perform_weekly_update_cleared s cw s1 :
+  perform_weekly_update s cw = Ok s1 ->
+  let iw := cleared_week cw in
+  (aget (w_energy s1) iw = aget (w_energy s) iw /\ rget (w_rewards s1) iw = rget (w_rewards s) iw) \/
+  (aget (w_energy s1) iw = 0 /\ rget (w_rewards s1) iw = []).
+Proof.
+  pose proof max_weeks_nonneg as HM. unfold perform_weekly_update, cleared_week.
+  destruct (w_last s =? cw); [intros Heq; inversion Heq; subst; left; split; reflexivity|].
+  destruct (w_last s =? 0); [intros Heq; inversion Heq; subst; left; split; reflexivity|].
+  destruct (w_last s <=? cw); [|discriminate].
+  intros Heq. apply bind_ok in Heq. destruct Heq as ([[[[f0 bt] bs] tt'] te'] & _ & Heq).
+  destruct (MAXW + 1 <? cw) eqn:E4; inversion Heq; subst; simpl.
+  - right. split; [apply aget_aset_same | apply rget_rset_same].
+  - left. rewrite aget_aset_other by lia. split; reflexivity.
+Qed.
+
+Lemma update_user_energy_cleared s cw cur op s1 :
+  update_user_energy s cw cur op = Ok s1 ->
+  let iw := cleared_week cw in
+  (aget (w_energy s1) iw = aget (w_energy s) iw /\ rget (w_rewards s1) iw = rget (w_rewards s) iw) \/
+  (aget (w_energy s1) iw = 0 /\ rget (w_rewards s1) iw = []).
+Proof.
+  pose proof max_weeks_nonneg as HM.
+  assert (Hx : forall la prev, update_global_amounts s cw la prev cur = Ok s1 ->
+     let iw := cleared_week cw in
+     (aget (w_energy s1) iw = aget (w_energy s) iw /\ rget (w_rewards s1) iw = rget (w_rewards s) iw) \/
+     (aget (w_energy s1) iw = 0 /\ rget (w_rewards s1) iw = [])).
+  { intros la prev Hg. unfold update_global_amounts in Hg. apply bind_ok in Hg. destruct Hg as (s0 & Hp0 & Hg).
+    destruct (la <=? cw); [|discriminate].
+    apply bind_ok in Hg. destruct Hg as ([[sx hp] hc] & Hr & Hg).
+    apply bind_ok in Hg. destruct Hg as (tl' & _ & Hg). apply bind_ok in Hg. destruct Hg as (te & _ & Hg).
+    inversion Hg; subst; clear Hg. simpl.
+    destruct (reallocate_bucket_frame _ _ _ _ _ _ _ Hr) as (_ & r2 & _ & _ & r5 & _). rewrite r5, r2.
+    rewrite aget_aset_other by (unfold cleared_week; lia).
+    apply (perform_weekly_update_cleared _ _ _ Hp0). }
+  unfold update_user_energy. destruct op as [p|]; apply Hx.
+Qed.
+
+Definition nonneg_acc (f : fc) : Prop := forall w t, 0 <= view_accumulated f w t.
+
+Lemma accumulate_additional_acc f cw w t :
+  view_accumulated (accumulate_additional f cw) w t =
+  view_accumulated f w t +
+  (if negb (fc_lock_week f =? cw) && (w =? cw - 1) && (t =? LOCKED) then fc_per_block f * BLOCKS_IN_WEEK else 0).
+Proof.
+  unfold accumulate_additional, view_accumulated. destruct (fc_lock_week f =? cw); simpl; [lia|].
+  destruct (w =? cw - 1) eqn:E1; [destruct (t =? LOCKED) eqn:E2|]; simpl.
+  - apply Z.eqb_eq in E1. apply Z.eqb_eq in E2. subst. rewrite acc_get_set_same. reflexivity.
+  - apply Z.eqb_eq in E1. apply Z.eqb_neq in E2. subst. rewrite acc_get_set_other by (right; congruence). lia.
+  - apply Z.eqb_neq in E1. rewrite acc_get_set_other by (left; congruence). lia.
+Qed.
+
+(** everything a user touch (claim, energy update) does to the collector, week by week: [f1] is the
+    state whose accumulations the touch starts from (for a claim: after the extra locked tokens of the
+    previous week were credited) *)
+Definition touch_summary (f f1 f' : fc) (user : Z) (det : detail) : Prop :=
+  let cw := cur_week f in let toks := h_tokens (fc_h f) in
+  current_week f = Ok cw /\ cur_week f' = cw /\ w_last (fc_w f') = cw /\
+  w_prog (fc_w f') = progress_after (w_prog (fc_w f)) user cw (energy_entry f user) /\
+  (forall w, w <> cw ->
+     (view_total_energy f' w = view_total_energy f w /\ view_total_rewards f' w = view_total_rewards f w /\
+      forall t, view_accumulated f' w t = view_accumulated f1 w t) \/
+     (w = cleared_week cw /\ view_total_energy f' w = 0 /\ view_total_rewards f' w = [] /\
+      forall t, view_accumulated f' w t = view_accumulated f1 w t) \/
+     (view_total_energy f' w = view_total_energy f w /\ view_total_rewards f w = [] /\ cw - MAXW <= w < cw /\
+      view_total_rewards f' w = positive_part (map (fun t => (t, view_accumulated f1 w t)) toks) /\
+      forall t, view_accumulated f' w t = if mem t toks then 0 else view_accumulated f1 w t)) /\
+  (view_total_rewards f' cw = view_total_rewards f cw /\ forall t, view_accumulated f' cw t = view_accumulated f1 cw t) /\
+  match view_progress f user with
+  | None => det = []
+  | Some p => pr_week p <= cw /\
+              map fst det = zseq (first_claim_week p cw) (nr_claim_weeks p cw) /\
+              (forall w r, In (w, r) det ->
+                 r = week_share (view_total_rewards f' w) (energy_at p w) (view_total_energy f w))
+  end /\
+  pay_out (fc_bal f) (unlocked_part (flat_rewards det)) = Ok (fc_bal f') /\
+  fc_per_block f' = fc_per_block f /\ h_tokens (fc_h f') = toks /\ nonneg_acc f'.
+
+Lemma claim_summary f dest user f' outs det :
+  FInv f -> nonneg_acc f -> 0 <= fc_per_block f ->
+  claim_rewards f dest user = Ok (f', outs, det) ->
+  touch_summary f (accumulate_additional f (cur_week f)) f' user det.
+Proof.
+  intros (Hwf & Hinv & Hlast) Hnn Hpb Hc. unfold touch_summary.
+  set (cw := cur_week f). set (f1 := accumulate_additional f cw). set (toks := h_tokens (fc_h f)).
+  destruct (claim_rewards_char _ _ _ _ _ _ Hwf Hc) as (cw0 & Hcw & Hm & Hpa & _ & Hpay).
+  pose proof (current_week_cur _ _ Hcw) as Hcur. fold cw in Hcur. subst cw0.
+  destruct (claim_rewards_env _ _ _ _ _ _ Hc) as (e1 & e2 & _ & e4 & _).
+  pose proof Hwf as (cw0 & Hcw0 & Hprog & Hfac & Hnd). rewrite Hcw in Hcw0. inversion Hcw0; subst cw0; clear Hcw0.
+  unfold claim_rewards in Hc. rewrite Hcw in Hc. simpl bind in Hc. fold f1 in Hc.
+  apply bind_ok in Hc. destruct Hc as ([[h2 w2] det2] & Hcm & Hc).
+  apply bind_ok in Hc. destruct Hc as (bal' & _ & Hc). inversion Hc; subst; clear Hc.
+  assert (Haw : fc_w f1 = fc_w f) by apply accumulate_additional_w.
+  rewrite Haw in Hcm. unfold f1 in Hcm at 2. rewrite energy_entry_accumulate in Hcm.
+  assert (Hwfu : forall p, pfind (w_prog (fc_w f)) user = Some p -> 0 <= en_tok (pr_en p)).
+  { intros p Hp. apply pfind_in in Hp. rewrite Forall_forall in Hprog. apply (Hprog _ Hp). }
+  destruct (claim_multi_spec fhost fc_hook fc_hook_frame _ _ _ _ _ _ _ _ Hwfu Hcm)
+    as (s1 & s2 & Hu & Hsbr & Hs' & _ & Hmm).
+  destruct (update_user_energy_frame _ _ _ _ _ Hu) as (_ & Hl1 & Hen1 & Hrw).
+  pose proof (update_user_energy_cleared _ _ _ _ _ Hu) as Hclr.
+  destruct (accumulate_additional_env f cw) as (_ & _ & _ & _ & Htk). fold f1 in Htk.
+  pose proof max_weeks_nonneg as HM.
+  assert (Hnn1 : forall w t, 0 <= acc_get (fc_h f1) w t).
+  { intros w t. change (0 <= view_accumulated f1 w t). unfold f1. rewrite accumulate_additional_acc.
+    specialize (Hnn w t). pose proof weekly_params as (_ & _ & HB).
+    destruct (negb (fc_lock_week f =? cw) && (w =? cw - 1) && (t =? LOCKED)); nia. }
+  assert (Hnd1 : NoDup (h_tokens (fc_h f1))) by (rewrite Htk; exact Hnd).
+  (* what the claim loop does to rewards and accumulations *)
+  assert (Hloop : (forall w, ~ In w (map fst det) -> rget (w_rewards s2) w = rget (w_rewards s1) w) /\
+                  (forall w, rget (w_rewards s1) w <> [] -> rget (w_rewards s2) w = rget (w_rewards s1) w) /\
+                  (forall w, rget (w_rewards s1) w = [] -> rget (w_rewards s2) w <> [] ->
+                     In w (map fst det) /\
+                     rget (w_rewards s2) w = positive_part (map (fun t => (t, acc_get (fc_h f1) w t)) toks) /\
+                     (forall t, In t toks -> acc_get h2 w t = 0)) /\
+                  (forall w t, 0 <= acc_get h2 w t) /\
+                  (forall w t, (rget (w_rewards s1) w <> [] \/ rget (w_rewards s2) w = [] \/ ~ In t toks) ->
+                               acc_get h2 w t = acc_get (fc_h f1) w t)).
+  { destruct (pfind (w_prog (fc_w f)) user) as [p|] eqn:Ep.
+    - destruct Hmm as (Hle & Hmap & Hcw2).
+      assert (Htp : 0 <= en_tok (pr_en (adv p (first_claim_week p cw - pr_week p)))) by (rewrite adv_tok; apply Hwfu; reflexivity).
+      destruct (fc_claim_weeks_shares _ _ _ _ _ _ _ _ Htp Hcw2) as (_ & Hout & Hfz).
+      pose proof (fc_claim_weeks_collect _ _ _ _ _ _ _ _ Htp Hnd1 Hcw2) as Hcol.
+      destruct (fc_claim_weeks_acc _ _ _ _ _ _ _ _ Htp Hnd1 Hnn1 Hcw2) as (Hnn2 & Hacc2).
+      rewrite adv_week in Hout, Hcol.
+      replace (pr_week p + (first_claim_week p cw - pr_week p)) with (first_claim_week p cw) in Hout, Hcol by lia.
+      rewrite <- Hmap in Hout, Hcol. rewrite Htk in Hcol, Hacc2.
+      split; [exact Hout|]. split; [exact Hfz|]. split; [exact Hcol|]. split; [exact Hnn2 | exact Hacc2].
+    - destruct Hmm as (-> & -> & ->). split; [reflexivity|]. split; [reflexivity|].
+      split; [intros w He Hne; contradiction|]. split; [exact Hnn1 | reflexivity]. }
+  destruct Hloop as (Hout & Hfz & Hcol & Hnn2 & Hacc2).
+  assert (Hwin : forall w, In w (map fst det) -> cw - MAXW <= w < cw).
+  { intros w Hin. unfold view_progress in Hm. destruct (pfind (w_prog (fc_w f)) user) as [p|].
+    - destruct Hm as (_ & Hmap & _). rewrite Hmap in Hin. apply zseq_in in Hin. unfold first_claim_week, nr_claim_weeks in Hin. lia.
+    - subst det. destruct Hin. }
+  unfold view_total_energy, view_total_rewards, view_accumulated, nonneg_acc. simpl fc_w. simpl fc_h. simpl fc_per_block.
+  subst w2. rewrite store_progress_rewards, store_progress_energy.
+  assert (Hen2 : w_energy s2 = w_energy s1) by apply Hsbr.
+  (* a week whose total stays as it is keeps its accumulations *)
+  assert (Hsame : forall w, rget (w_rewards s2) w = rget (w_rewards s1) w -> forall t, acc_get h2 w t = acc_get (fc_h f1) w t).
+  { intros w Hw t. apply Hacc2. destruct (rget (w_rewards s1) w) eqn:E1; [right; left; exact Hw | left; discriminate]. }
+  split; [exact Hcw|]. split; [unfold cur_week; rewrite e1, e2; reflexivity|].
+  split; [destruct Hsbr as (_ & _ & _ & f4 & _); unfold store_progress; destruct (0 <? en_amount _); simpl; congruence|].
+  split; [exact Hpa|].
+  split.
+  { intros w Hw. rewrite Hen2. destruct (Z.eq_dec w (cleared_week cw)) as [->|Hcl].
+    - assert (Hnot : ~ In (cleared_week cw) (map fst det)) by (intros Hin; apply Hwin in Hin; unfold cleared_week in Hin; lia).
+      specialize (Hout _ Hnot).
+      destruct Hclr as [(Ha & Hb)|(Ha & Hb)].
+      + left. split; [exact Ha|]. split; [rewrite Hout; exact Hb | apply Hsame; exact Hout].
+      + right. left. split; [reflexivity|]. split; [exact Ha|]. split; [rewrite Hout; exact Hb | apply Hsame; exact Hout].
+    - specialize (Hen1 w Hw Hcl). specialize (Hrw w Hcl).
+      destruct (rget (w_rewards s1) w) as [|x1 t1] eqn:E1.
+      + destruct (rget (w_rewards s2) w) as [|x2 t2] eqn:E2.
+        * left. split; [exact Hen1|]. split; [rewrite <- Hrw; reflexivity | apply Hsame; rewrite E1, E2; reflexivity].
+        * right. right.
+          destruct (Hcol w E1 ltac:(rewrite E2; discriminate)) as (Hin & Hpp & Hzero).
+          split; [exact Hen1|]. split; [symmetry; exact Hrw|]. split; [apply Hwin; exact Hin|].
+          split; [rewrite <- E2; exact Hpp|].
+          intros t. destruct (mem t toks) eqn:Em.
+          -- apply Hzero. apply mem_in. exact Em.
+          -- apply Hacc2. right. right. intros Hin'. apply mem_in in Hin'. congruence.
+      + left. assert (Hne : rget (w_rewards s1) w <> []) by (rewrite E1; discriminate).
+        split; [exact Hen1|]. split; [rewrite (Hfz _ Hne), E1; exact Hrw | apply Hsame; apply Hfz; exact Hne]. }
+  split.
+  { assert (Hnot : ~ In cw (map fst det)) by (intros Hin; apply Hwin in Hin; lia).
+    specialize (Hout _ Hnot). split; [rewrite Hout; apply Hrw; unfold cleared_week; lia | apply Hsame; exact Hout]. }
+  split.
+  { unfold view_progress in *. destruct (pfind (w_prog (fc_w f)) user) as [p|]; [|exact Hm].
+    destruct Hm as (Hle & Hmap & Hsh). split; [exact Hle|]. split; [exact Hmap|].
+    intros w r Hin. rewrite (Hsh w r Hin). unfold view_total_rewards, view_total_energy. simpl.
+    rewrite store_progress_rewards. reflexivity. }
+  split; [exact Hpay|]. split; [unfold f1, accumulate_additional; destruct (fc_lock_week f =? cw); reflexivity|].
+  split; [exact e4 | exact Hnn2].
+Qed.
+
+(** ------------------------------------------------------------------ ghost ledger of a history *)
+Record ghost := mkG {
+  g_paid : list (Z * Z * Z);      (* (week, token, amount) paid out by claims *)
+  g_used : list (Z * Z);          (* (week, energy) the claims of that week's rewards were computed with *)
+  g_cred : list (Z * Z * Z)       (* (week, token, amount) deposited for the week *)
+}.
+Definition g0 : ghost := mkG [] [] [].
+
+Definition sum3 (l : list (Z * Z * Z)) (w t : Z) : Z :=
+  fold_right (fun e acc => if (fst (fst e) =? w) && (snd (fst e) =? t) then snd e + acc else acc) 0 l.
+Definition sum2 (l : list (Z * Z)) (w : Z) : Z :=
+  fold_right (fun e acc => if fst e =? w then snd e + acc else acc) 0 l.
+
+Lemma sum3_app l1 l2 w t : sum3 (l1 ++ l2) w t = sum3 l1 w t + sum3 l2 w t.
+Proof. induction l1 as [|e tl IH]; simpl; [lia|]. destruct ((fst (fst e) =? w) && (snd (fst e) =? t)); rewrite IH; lia. Qed.
+Lemma sum2_app l1 l2 w : sum2 (l1 ++ l2) w = sum2 l1 w + sum2 l2 w.
+Proof. induction l1 as [|e tl IH]; simpl; [lia|]. destruct (fst e =? w); rewrite IH; lia. Qed.
+
+Definition pay_entries (det : detail) : list (Z * Z * Z) :=
+  flat_map (fun wr => map (fun ta => (fst wr, fst ta, snd ta)) (snd wr)) det.
+Definition used_entries (op : option progress) (det : detail) : list (Z * Z) :=
+  match op with Some p => map (fun wr => (fst wr, energy_at p (fst wr))) det | None => [] end.
+Definition extra_credit (f : fc) : list (Z * Z * Z) :=
+  if fc_lock_week f =? cur_week f then [] else [(cur_week f - 1, LOCKED, fc_per_block f * BLOCKS_IN_WEEK)].
+
+Definition gstep (fg : fc * ghost) (op : fop) : fc * ghost :=
+  let '(f, g) := fg in
+  match step f op with
+  | Err _ => (f, g)
+  | Ok (f', _, det) =>
+      (f', match op with
+           | Deposit c tok nonce amt => mkG (g_paid g) (g_used g) (g_cred g ++ [(cur_week f, tok, amt)])
+           | Claim c orig b =>
+               mkG (g_paid g ++ pay_entries det)
+                   (g_used g ++ used_entries (view_progress f (claim_user c orig)) det)
+                   (g_cred g ++ extra_credit f)
+           | SetPerBlock _ _ => mkG (g_paid g) (g_used g) (g_cred g ++ extra_credit f)
+           | _ => g
+           end)
+  end.
+
+Definition grun (fg : fc * ghost) (ops : list fop) : fc * ghost := fold_left gstep ops fg.
+
+Lemma grun_fst ops : forall f g, fst (grun (f, g) ops) = run f ops.
+Proof.
+  unfold grun, run. induction ops as [|op t IH]; intros f g; simpl; [reflexivity|].
+  unfold step_total. destruct (step f op) as [[[f' o] d]|]; apply IH.
+Qed.
+
+Lemma sum3_map_week w0 (r : list (Z * Z)) w t :
+  sum3 (map (fun ta => (w0, fst ta, snd ta)) r) w t = if w0 =? w then tok_sum r t else 0.
+Proof.
+  induction r as [|[t0 a] tl IH]; simpl; [destruct (w0 =? w); reflexivity|].
+  rewrite IH. destruct (w0 =? w); simpl; [destruct (t0 =? t); reflexivity | reflexivity].
+Qed.
+
+Lemma pay_entries_sum det w t : NoDup (map fst det) ->
+  (forall r, In (w, r) det -> sum3 (pay_entries det) w t = tok_sum r t) /\
+  (~ In w (map fst det) -> sum3 (pay_entries det) w t = 0).
+Proof.
+  induction det as [|[w0 r0] tl IH]; simpl; intros Hnd.
+  - split; [intros r [] | reflexivity].
+  - inversion Hnd as [|? ? Hnin Hnd']; subst. destruct (IH Hnd') as (IH1 & IH2).
+    rewrite sum3_app, sum3_map_week. split.
+    + intros r [Heq|Hin].
+      * inversion Heq; subst. rewrite Z.eqb_refl, IH2 by exact Hnin. lia.
+      * destruct (w0 =? w) eqn:E; [apply Z.eqb_eq in E; subst; exfalso; apply Hnin; apply (in_map fst) in Hin; exact Hin|].
+        rewrite (IH1 _ Hin). lia.
+    + intros Hn. destruct (w0 =? w) eqn:E; [apply Z.eqb_eq in E; subst; exfalso; apply Hn; left; reflexivity|].
+      rewrite IH2; [lia | intros Hin; apply Hn; right; exact Hin].
+Qed.
+
+Lemma used_entries_sum p det w : NoDup (map fst det) ->
+  sum2 (used_entries (Some p) det) w = if existsb (Z.eqb w) (map fst det) then energy_at p w else 0.
+Proof.
+  simpl. induction det as [|[w0 r0] tl IH]; simpl; intros Hnd; [reflexivity|].
+  inversion Hnd as [|? ? Hnin Hnd']; subst. rewrite (IH Hnd'). rewrite (Z.eqb_sym w w0).
+  destruct (w0 =? w) eqn:E; simpl; [|reflexivity].
+  apply Z.eqb_eq in E. subst.
+  destruct (existsb (Z.eqb w) (map fst tl)) eqn:Ex; [|lia].
+  exfalso. apply Hnin. apply existsb_exists in Ex. destruct Ex as (x & Hx & He). apply Z.eqb_eq in He. subst. exact Hx.
+Qed.
+
+Lemma existsb_in w l : existsb (Z.eqb w) l = true <-> In w l.
+Proof.
+  rewrite existsb_exists. split; [intros (x & Hx & He); apply Z.eqb_eq in He; subst; exact Hx | intros H; exists w; split; [exact H | apply Z.eqb_refl]].
+Qed.
+
+(** sum of a token over a positive part of per-token accumulations *)
+Lemma tok_sum_positive_part (g : Z -> Z) toks t : NoDup toks -> (forall x, 0 <= g x) ->
+  tok_sum (positive_part (map (fun x => (x, g x)) toks)) t = if mem t toks then g t else 0.
+Proof.
+  unfold positive_part. intros Hnd Hg. induction toks as [|x tl IH]; simpl; [reflexivity|].
+  inversion Hnd as [|? ? Hnin Hnd']; subst. specialize (IH Hnd').
+  rewrite (Z.eqb_sym t x). destruct (0 <? g x) eqn:Ep; simpl.
+  - destruct (x =? t) eqn:Ex; simpl.
+    + apply Z.eqb_eq in Ex. subst. rewrite IH. destruct (mem t tl) eqn:Em; [apply mem_in in Em; contradiction | lia].
+    + exact IH.
+  - rewrite IH. destruct (x =? t) eqn:Ex; simpl; [|reflexivity].
+    apply Z.eqb_eq in Ex. subst. apply Z.ltb_ge in Ep. specialize (Hg t).
+    destruct (mem t tl) eqn:Em; [apply mem_in in Em; contradiction | lia].
+Qed.
+
+Lemma positive_part_nonneg l : Forall (fun p : Z * Z => 0 <= snd p) (positive_part l).
+Proof.
+  unfold positive_part. apply Forall_forall. intros p Hin. apply filter_In in Hin. destruct Hin as (_ & Hp).
+  apply Z.ltb_lt in Hp. lia.
+Qed.
+
+Lemma tok_sum_nonneg l t : Forall (fun p : Z * Z => 0 <= snd p) l -> 0 <= tok_sum l t.
+Proof.
+  induction l as [|[t0 a] tl IH]; simpl; intros Hall; [lia|]. inversion Hall; subst. simpl in *.
+  specialize (IH H2). destruct (t0 =? t); lia.
+Qed.
+
+(** ------------------------------------------------------------------ sums over a window of weeks *)
+Definition wsum (g : Z -> Z) (a : Z) (n : nat) : Z := zsum (map g (zseq a n)).
+
+Lemma wsum_S g a n : wsum g a (S n) = g a + wsum g (a + 1) n.
+Proof. reflexivity. Qed.
+
+Lemma wsum_ext g h a n : (forall w, a <= w < a + Z.of_nat n -> g w = h w) -> wsum g a n = wsum h a n.
+Proof.
+  revert a. induction n as [|n IH]; intros a Hgh; [reflexivity|]. rewrite !wsum_S.
+  rewrite (Hgh a) by lia. rewrite (IH (a + 1)); [reflexivity|]. intros w Hw. apply Hgh. lia.
+Qed.
+
+Lemma wsum_le g h a n : (forall w, a <= w < a + Z.of_nat n -> g w <= h w) -> wsum g a n <= wsum h a n.
+Proof.
+  revert a. induction n as [|n IH]; intros a Hgh; [unfold wsum; simpl; lia|]. rewrite !wsum_S.
+  pose proof (Hgh a ltac:(lia)). assert (wsum g (a + 1) n <= wsum h (a + 1) n) by (apply IH; intros w Hw; apply Hgh; lia). lia.
+Qed.
+
+Lemma wsum_nonneg g a n : (forall w, a <= w < a + Z.of_nat n -> 0 <= g w) -> 0 <= wsum g a n.
+Proof.
+  revert a. induction n as [|n IH]; intros a Hg; [unfold wsum; simpl; lia|]. rewrite wsum_S.
+  pose proof (Hg a ltac:(lia)). assert (0 <= wsum g (a + 1) n) by (apply IH; intros w Hw; apply Hg; lia). lia.
+Qed.
+
+Lemma wsum_add g h a n : wsum (fun w => g w + h w) a n = wsum g a n + wsum h a n.
+Proof. revert a. induction n as [|n IH]; intros a; [reflexivity|]. rewrite !wsum_S, IH. lia. Qed.
+
+Lemma wsum_snoc g a n : wsum g a (S n) = wsum g a n + g (a + Z.of_nat n).
+Proof.
+  revert a. induction n as [|n IH]; intros a.
+  - unfold wsum; simpl. rewrite !Z.add_0_r. lia.
+  - rewrite wsum_S, IH, (wsum_S g a n). replace (a + 1 + Z.of_nat n) with (a + Z.of_nat (S n)) by lia. lia.
+Qed.
+
+(** sliding the window forward over weeks that hold nothing yet *)
+Lemma wsum_slide g a n d : (forall w, 0 <= g w) -> (forall w, a + Z.of_nat n <= w -> g w = 0) ->
+  wsum g (a + Z.of_nat d) n <= wsum g a n.
+Proof.
+  intros Hnn Hz. induction d as [|d IH]; [rewrite Z.add_0_r; lia|].
+  assert (Hstep : wsum g (a + Z.of_nat (S d)) n = wsum g (a + Z.of_nat d) n - g (a + Z.of_nat d) + g (a + Z.of_nat d + Z.of_nat n)).
+  { pose proof (wsum_S g (a + Z.of_nat d) n) as H1. pose proof (wsum_snoc g (a + Z.of_nat d) n) as H2.
+    replace (a + Z.of_nat (S d)) with (a + Z.of_nat d + 1) by lia. lia. }
+  rewrite Hstep. rewrite (Hz (a + Z.of_nat d + Z.of_nat n)) by lia. specialize (Hnn (a + Z.of_nat d)). lia.
+Qed.
+
+Ltac b2p := repeat match goal with
+  | H : (_ && _) = true |- _ => apply andb_prop in H; destruct H
+  | H : (_ && _) = false |- _ => apply andb_false_iff in H; destruct H
+  | H : (_ =? _) = true |- _ => apply Z.eqb_eq in H
+  | H : (_ =? _) = false |- _ => apply Z.eqb_neq in H
+  | H : (_ <=? _) = true |- _ => apply Z.leb_le in H
+  | H : (_ <=? _) = false |- _ => apply Z.leb_gt in H
+  | H : (_ <? _) = true |- _ => apply Z.ltb_lt in H
+  | H : (_ <? _) = false |- _ => apply Z.ltb_ge in H end.
+
+Lemma wsum_indicator (w0 c : Z) a n :
+  wsum (fun w => if w0 =? w then c else 0) a n = if (a <=? w0) && (w0 <? a + Z.of_nat n) then c else 0.
+Proof.
+  revert a. induction n as [|n IH]; intros a.
+  - unfold wsum; simpl. destruct ((a <=? w0) && (w0 <? a + 0)) eqn:E; [b2p; lia | reflexivity].
+  - rewrite wsum_S, IH.
+    destruct (w0 =? a) eqn:E0; destruct ((a + 1 <=? w0) && (w0 <? a + 1 + Z.of_nat n)) eqn:E1;
+      destruct ((a <=? w0) && (w0 <? a + Z.of_nat (S n))) eqn:E2; b2p; lia.
+Qed.
+
+(** payments: the balances move by exactly the per-token totals *)
+Lemma pay_out_effect ps : forall bal bal', pay_out bal ps = Ok bal' ->
+  forall t, aget bal' t = aget bal t - tok_sum ps t.
+Proof.
+  induction ps as [|[t0 a] tl IH]; intros bal bal'; simpl.
+  - intros Heq; inversion Heq; subst. intros; lia.
+  - intros Heq. apply bind_ok in Heq. destruct Heq as (b & Hb & Heq). apply sub_chk_ok in Hb. destruct Hb as (_ & ->).
+    intros t. rewrite (IH _ _ Heq t), aget_aset_pt. destruct (t0 =? t) eqn:E; [apply Z.eqb_eq in E; subst|]; lia.
+Qed.
+
+Lemma pay_out_total ps : forall bal, Forall (fun p : Z * Z => 0 <= snd p) ps ->
+  (forall t, tok_sum ps t <= aget bal t) -> exists bal', pay_out bal ps = Ok bal'.
+Proof.
+  induction ps as [|[t0 a] tl IH]; intros bal Hnn Hle; simpl; [eexists; reflexivity|].
+  inversion Hnn as [|? ? Ha Htl]; subst. simpl in Ha.
+  pose proof (Hle t0) as H0. simpl in H0. rewrite Z.eqb_refl in H0.
+  pose proof (tok_sum_nonneg tl t0 Htl).
+  rewrite sub_chk_ge by lia. simpl bind. apply IH; [exact Htl|].
+  intros t. rewrite aget_aset_pt. specialize (Hle t). simpl in Hle.
+  destruct (t0 =? t) eqn:E; [apply Z.eqb_eq in E; subst|]; lia.
+Qed.
+
+(** ------------------------------------------------------------------ the ledger invariant *)
+Definition gE (f : fc) (w : Z) : Z := view_total_energy f w.
+Definition gR (f : fc) (w t : Z) : Z := tok_sum (view_total_rewards f w) t.
+Definition gA (f : fc) (w t : Z) : Z := view_accumulated f w t.
+Definition paid (g : ghost) (w t : Z) : Z := sum3 (g_paid g) w t.
+Definition used (g : ghost) (w : Z) : Z := sum2 (g_used g) w.
+Definition cred (g : ghost) (w t : Z) : Z := sum3 (g_cred g) w t.
+(** energy of the recorded users that can still claim week [w] *)
+Definition owed_at (w : Z) (p : progress) : Z := if pr_week p <=? w then energy_at p w else 0.
+Definition owed (f : fc) (w : Z) : Z := psum (owed_at w) (w_prog (fc_w f)).
+(** what the collector may still have to hand out of week [w] in token [t] *)
+Definition pot (f : fc) (g : ghost) (t w : Z) : Z := gA f w t + Z.max 0 (gR f w t - paid g w t).
+Definition window_len : nat := S (Z.to_nat MAXW).
+
+Record DInv (f : fc) (g : ghost) : Prop := mkD {
+  d_E0 : forall w, 0 <= gE f w;
+  d_Efut : forall w, w_last (fc_w f) < w -> gE f w = 0;
+  d_Rfut : forall w, w_last (fc_w f) <= w -> view_total_rewards f w = [];
+  d_Rnn : forall w, Forall (fun p => 0 <= snd p) (view_total_rewards f w);
+  d_A0 : nonneg_acc f;
+  d_Afut : forall w t, cur_week f < w -> gA f w t = 0;
+  d_pb : 0 <= fc_per_block f;
+  d_paid0 : forall w t, 0 <= paid g w t;
+  d_used0 : forall w, 0 <= used g w;
+  d_paidfut : forall w t, w_last (fc_w f) <= w -> paid g w t = 0;
+  d_usedfut : forall w, w_last (fc_w f) <= w -> used g w = 0;
+  d_EI : forall w, w < w_last (fc_w f) -> gE f w = 0 \/ used g w + owed f w <= gE f w;
+  d_PI : forall w t, paid g w t * gE f w <= gR f w t * used g w;
+  d_P0 : forall w t, cur_week f - MAXW <= w -> (view_total_rewards f w = [] \/ gE f w = 0) -> paid g w t = 0;
+  d_CI : forall w t, gA f w t + Z.max (gR f w t) (paid g w t) <= cred g w t;
+  d_SI : forall t, t <> LOCKED -> wsum (pot f g t) (cur_week f - MAXW) window_len <= aget (fc_bal f) t
+}.
+
+Lemma pot_init epoch t w : pot (init_fc epoch) g0 t w = 0.
+Proof. unfold pot, gA, gR, paid, view_accumulated, view_total_rewards, acc_get; simpl. lia. Qed.
+
+Lemma init_dinv epoch : DInv (init_fc epoch) g0.
+Proof.
+  constructor; unfold gE, gR, gA, paid, used, cred, nonneg_acc, view_total_energy, view_total_rewards, view_accumulated, acc_get; simpl;
+    intros; try lia; try reflexivity; try constructor.
+Qed.
+
+(** the invariant only looks at the weekly state, the accumulations, the balances and the clock *)
+Lemma DInv_ext f f' g :
+  fc_w f' = fc_w f -> (forall w t, view_accumulated f' w t = view_accumulated f w t) ->
+  fc_bal f' = fc_bal f -> fc_per_block f' = fc_per_block f -> cur_week f' = cur_week f ->
+  DInv f g -> DInv f' g.
+Proof.
+  intros Hw Ha Hb Hp Hc D.
+  assert (HE : forall w, gE f' w = gE f w) by (intros; unfold gE, view_total_energy; rewrite Hw; reflexivity).
+  assert (HR : forall w, view_total_rewards f' w = view_total_rewards f w) by (intros; unfold view_total_rewards; rewrite Hw; reflexivity).
+  assert (HR2 : forall w t, gR f' w t = gR f w t) by (intros; unfold gR; rewrite HR; reflexivity).
+  assert (HA : forall w t, gA f' w t = gA f w t) by (intros; apply Ha).
+  assert (HO : forall w, owed f' w = owed f w) by (intros; unfold owed; rewrite Hw; reflexivity).
+  constructor; intros; rewrite ?HE, ?HR, ?HR2, ?HA, ?HO, ?Hw, ?Hc, ?Hb, ?Hp in *.
+  - apply (d_E0 _ _ D).
+  - apply (d_Efut _ _ D); assumption.
+  - apply (d_Rfut _ _ D); assumption.
+  - apply (d_Rnn _ _ D).
+  - intros w0 t0. rewrite Ha. apply (d_A0 _ _ D).
+  - apply (d_Afut _ _ D); assumption.
+  - apply (d_pb _ _ D).
+  - apply (d_paid0 _ _ D).
+  - apply (d_used0 _ _ D).
+  - apply (d_paidfut _ _ D); assumption.
+  - apply (d_usedfut _ _ D); assumption.
+  - apply (d_EI _ _ D); assumption.
+  - apply (d_PI _ _ D).
+  - apply (d_P0 _ _ D); assumption.
+  - apply (d_CI _ _ D).
+  - erewrite wsum_ext; [apply (d_SI _ _ D); assumption|]. intros w0 _. unfold pot. rewrite HA, HR2. reflexivity.
+Qed.
+
+Lemma pot_nonneg f g t w : DInv f g -> 0 <= pot f g t w.
+Proof. intros D. unfold pot. pose proof (d_A0 _ _ D w t). unfold gA. lia. Qed.
+
+Lemma pot_future f g t w : FInv f -> DInv f g -> cur_week f < w -> pot f g t w = 0.
+Proof.
+  intros (_ & _ & Hl) D Hw. unfold pot. rewrite (d_Afut _ _ D) by exact Hw.
+  unfold gR. rewrite (d_Rfut _ _ D) by lia. rewrite (d_paidfut _ _ D) by lia. simpl. lia.
+Qed.
+
+Lemma window_len_Z : Z.of_nat window_len = MAXW + 1.
+Proof. unfold window_len. pose proof max_weeks_nonneg. lia. Qed.
+
+(** time passes *)
+Lemma DInv_advance f g n : FInv f -> DInv f g -> 0 <= n -> DInv (with_epoch f (fc_epoch f + n)) g.
+Proof.
+  intros Hi D Hn. set (f' := with_epoch f (fc_epoch f + n)).
+  assert (Hcw : cur_week f <= cur_week f').
+  { unfold cur_week, f'; simpl. pose proof week_pos.
+    pose proof (Z.div_le_mono (fc_epoch f - fc_first_epoch f) (fc_epoch f + n - fc_first_epoch f) WK). lia. }
+  constructor; try (apply D); intros.
+  - apply (d_Afut _ _ D). lia.
+  - apply (d_P0 _ _ D); [lia | assumption].
+  - change (fc_bal f') with (fc_bal f).
+    eapply Z.le_trans; [|apply (d_SI _ _ D); assumption].
+    assert (Hpot : forall w, pot f' g t w = pot f g t w) by reflexivity.
+    erewrite wsum_ext; [|intros; apply Hpot].
+    replace (cur_week f' - MAXW) with (cur_week f - MAXW + Z.of_nat (Z.to_nat (cur_week f' - cur_week f))) by lia.
+    apply wsum_slide.
+    + intros w. apply pot_nonneg. exact D.
+    + intros w Hw. rewrite window_len_Z in Hw. apply pot_future; [exact Hi | exact D | lia].
+Qed.
+
+(** an amount is credited to one (week, token) accumulation *)
+Lemma DInv_credit f f' g w0 t0 a :
+  FInv f -> DInv f g ->
+  fc_w f' = fc_w f -> cur_week f' = cur_week f -> 0 <= fc_per_block f' -> 0 <= a -> w0 <= cur_week f ->
+  (forall w t, view_accumulated f' w t = view_accumulated f w t + (if (w0 =? w) && (t0 =? t) then a else 0)) ->
+  (forall t, t <> LOCKED -> aget (fc_bal f') t = aget (fc_bal f) t + (if t0 =? t then a else 0)) ->
+  (t0 <> LOCKED -> cur_week f - MAXW <= w0) ->
+  forall cr, (forall w t, sum3 cr w t = if (w0 =? w) && (t0 =? t) then a else 0) ->
+  DInv f' (mkG (g_paid g) (g_used g) (g_cred g ++ cr)).
+Proof.
+  intros Hi D Hw Hc Hpb Ha Hw0 HA Hbal Hwin cr Hcr.
+  set (g' := mkG (g_paid g) (g_used g) (g_cred g ++ cr)).
+  assert (HE : forall w, gE f' w = gE f w) by (intros; unfold gE, view_total_energy; rewrite Hw; reflexivity).
+  assert (HR : forall w, view_total_rewards f' w = view_total_rewards f w) by (intros; unfold view_total_rewards; rewrite Hw; reflexivity).
+  assert (HR2 : forall w t, gR f' w t = gR f w t) by (intros; unfold gR; rewrite HR; reflexivity).
+  assert (HO : forall w, owed f' w = owed f w) by (intros; unfold owed; rewrite Hw; reflexivity).
+  assert (Hpaid : forall w t, paid g' w t = paid g w t) by reflexivity.
+  assert (Hused : forall w, used g' w = used g w) by reflexivity.
+  assert (Hcred : forall w t, cred g' w t = cred g w t + (if (w0 =? w) && (t0 =? t) then a else 0)).
+  { intros. unfold cred, g'; simpl. rewrite sum3_app, Hcr. reflexivity. }
+  constructor; intros; rewrite ?HE, ?HR, ?HR2, ?HO, ?Hw, ?Hc, ?Hpaid, ?Hused in *.
+  - apply (d_E0 _ _ D).
+  - apply (d_Efut _ _ D); assumption.
+  - apply (d_Rfut _ _ D); assumption.
+  - apply (d_Rnn _ _ D).
+  - intros w t. rewrite HA. pose proof (d_A0 _ _ D w t). destruct ((w0 =? w) && (t0 =? t)); lia.
+  - unfold gA. rewrite HA. assert (Ef : (w0 =? w) = false) by (apply Z.eqb_neq; lia). rewrite Ef. simpl.
+    pose proof (d_Afut _ _ D w t H). unfold gA in *. lia.
+  - exact Hpb.
+  - apply (d_paid0 _ _ D).
+  - apply (d_used0 _ _ D).
+  - apply (d_paidfut _ _ D); assumption.
+  - apply (d_usedfut _ _ D); assumption.
+  - apply (d_EI _ _ D); assumption.
+  - apply (d_PI _ _ D).
+  - apply (d_P0 _ _ D); assumption.
+  - rewrite Hcred. unfold gA. rewrite HA. pose proof (d_CI _ _ D w t). unfold gA in *. lia.
+  - rewrite (Hbal t H).
+    assert (Hpot : forall w, pot f' g' t w = pot f g t w + (if w0 =? w then (if t0 =? t then a else 0) else 0)).
+    { intros w. unfold pot, gA. rewrite HA, HR2, Hpaid. destruct (w0 =? w); destruct (t0 =? t); simpl; lia. }
+    erewrite wsum_ext; [|intros; apply Hpot].
+    rewrite wsum_add, wsum_indicator. pose proof (d_SI _ _ D t H). rewrite window_len_Z.
+    destruct (t0 =? t) eqn:Et.
+    + apply Z.eqb_eq in Et. subst t0. specialize (Hwin H).
+      destruct ((cur_week f - MAXW <=? w0) && (w0 <? cur_week f - MAXW + (MAXW + 1))) eqn:Eb; [lia | b2p; lia].
+    + destruct ((cur_week f - MAXW <=? w0) && (w0 <? cur_week f - MAXW + (MAXW + 1))); lia.
+Qed.
+
+(** an energy update is a touch that claims nothing *)
+Lemma update_summary f c u f' outs det :
+  FInv f -> nonneg_acc f -> ep_update_energy f c u = Ok (f', outs, det) ->
+  touch_summary f f f' u [] /\ det = [].
+Proof.
+  intros (Hwf & Hinv & Hlast) Hnn Hs. unfold touch_summary.
+  destruct Hwf as (cw & Hcw & Hprog & Hfac & Hnd). pose proof (current_week_cur _ _ Hcw) as Hcur. subst cw.
+  set (cw := cur_week f) in *.
+  unfold ep_update_energy in Hs. rewrite Hcw in Hs. simpl bind in Hs.
+  apply bind_ok in Hs. destruct Hs as (w' & Hu & Hs). inversion Hs; subst; clear Hs.
+  unfold update_energy_for_user in Hu.
+  destruct (match pfind (w_prog (fc_w f)) u with Some p => pr_week p =? cw | None => true end) eqn:Eg; [|discriminate].
+  unfold update_energy_and_progress in Hu. apply bind_ok in Hu. destruct Hu as (s1 & Hu & Heq). inversion Heq; subst; clear Heq.
+  destruct (update_user_energy_frame _ _ _ _ _ Hu) as (Hp1 & Hl1 & Hen1 & Hrw).
+  pose proof (update_user_energy_cleared _ _ _ _ _ Hu) as Hclr.
+  pose proof max_weeks_nonneg as HM.
+  split; [|reflexivity].
+  unfold view_total_energy, view_total_rewards, view_accumulated, nonneg_acc, view_progress. simpl fc_w. simpl fc_h. simpl fc_bal. simpl fc_per_block.
+  rewrite store_progress_rewards, store_progress_energy, store_progress_prog.
+  split; [exact Hcw|]. split; [reflexivity|].
+  split; [unfold store_progress; destruct (0 <? en_amount _); simpl; exact Hl1|].
+  split; [rewrite Hp1; reflexivity|].
+  split.
+  { intros w Hw. destruct (Z.eq_dec w (cleared_week cw)) as [->|Hcl].
+    - destruct Hclr as [(Ha & Hb)|(Ha & Hb)].
+      + left. split; [exact Ha|]. split; [exact Hb | reflexivity].
+      + right. left. split; [reflexivity|]. split; [exact Ha|]. split; [exact Hb | reflexivity].
+    - left. split; [apply Hen1; assumption|]. split; [apply Hrw; exact Hcl | reflexivity]. }
+  split; [split; [apply Hrw; unfold cleared_week; lia | reflexivity]|].
+  split.
+  { destruct (pfind (w_prog (fc_w f)) u) as [p|]; [|reflexivity].
+    apply Z.eqb_eq in Eg. split; [lia|]. split; [|intros w r []].
+    unfold nr_claim_weeks. rewrite Eg, Z.sub_diag, Z.min_l by lia. reflexivity. }
+  split; [reflexivity|]. split; [reflexivity|]. split; [reflexivity | exact Hnn].
+Qed.
+
+Lemma tok_sum_unlocked l t : t <> LOCKED -> tok_sum (unlocked_part l) t = tok_sum l t.
+Proof.
+  intros Ht. unfold unlocked_part. induction l as [|[t0 a] tl IH]; simpl; [reflexivity|].
+  destruct (t0 =? LOCKED) eqn:El; simpl.
+  - apply Z.eqb_eq in El. subst t0. destruct (LOCKED =? t) eqn:E; [apply Z.eqb_eq in E; congruence | exact IH].
+  - rewrite IH. reflexivity.
+Qed.
+
+Lemma tok_sum_flat det t : tok_sum (flat_rewards det) t = zsum (map (fun wr => tok_sum (snd wr) t) det).
+Proof.
+  unfold flat_rewards. induction det as [|[w r] tl IH]; simpl; [reflexivity|]. rewrite tok_sum_app, IH. reflexivity.
+Qed.
+
+(** summing the new payment entries over a window that contains all claimed weeks gives the claim's total *)
+Lemma wsum_pay_entries det t a n : NoDup (map fst det) ->
+  (forall w, In w (map fst det) -> a <= w < a + Z.of_nat n) ->
+  wsum (fun w => sum3 (pay_entries det) w t) a n = zsum (map (fun wr => tok_sum (snd wr) t) det).
+Proof.
+  induction det as [|[w0 r0] tl IH]; intros Hnd Hin.
+  - simpl. clear. revert a. induction n as [|n IH]; intros a; [reflexivity|]. rewrite wsum_S, IH. simpl. lia.
+  - inversion Hnd as [|? ? Hnin Hnd']; subst. simpl map. simpl zsum.
+    rewrite <- IH; [|exact Hnd' | intros w Hw; apply Hin; right; exact Hw].
+    assert (Hpt : forall w, sum3 (pay_entries ((w0, r0) :: tl)) w t = (if w0 =? w then tok_sum r0 t else 0) + sum3 (pay_entries tl) w t).
+    { intros w. simpl. rewrite sum3_app, sum3_map_week. reflexivity. }
+    erewrite wsum_ext; [|intros; apply Hpt]. rewrite wsum_add, wsum_indicator.
+    pose proof (Hin w0 (or_introl eq_refl)) as Hw0.
+    destruct ((a <=? w0) && (w0 <? a + Z.of_nat n)) eqn:Eb; [reflexivity | b2p; lia].
+Qed.
+
+Lemma owed_at_nonneg w p : 0 <= owed_at w p.
+Proof. unfold owed_at. destruct (pr_week p <=? w); [apply energy_at_nonneg | lia]. Qed.
+
+(** ------------------------------------------------------------------ a touch preserves the ledger invariant *)
+Lemma touch_preserves f f1 f' user det g :
+  FInv f -> FInv f' -> DInv f1 g ->
+  fc_w f1 = fc_w f -> fc_bal f1 = fc_bal f -> cur_week f1 = cur_week f -> fc_per_block f1 = fc_per_block f ->
+  touch_summary f f1 f' user det ->
+  DInv f' (mkG (g_paid g ++ pay_entries det) (g_used g ++ used_entries (view_progress f user) det) (g_cred g)).
+Proof.
+  intros Hi Hi' D Hw1 Hb1 Hc1 Hp1 Hts. unfold touch_summary in Hts.
+  set (cw := cur_week f) in *. set (toks := h_tokens (fc_h f)) in *.
+  destruct Hts as (Hcw & Hcw' & HL' & Hprog' & Hweeks & Hcwk & Hdet & Hpay & Hpb' & Htoks' & Hnn').
+  set (pop := view_progress f user) in *.
+  set (g' := mkG (g_paid g ++ pay_entries det) (g_used g ++ used_entries pop det) (g_cred g)).
+  set (L := w_last (fc_w f)).
+  pose proof max_weeks_nonneg as HM.
+  destruct Hi as (Hwf & Hinv & HLcw). fold L cw in HLcw.
+  assert (Hnd : NoDup toks) by (destruct Hwf as (? & _ & _ & _ & Hx); exact Hx).
+  (* the invariant of [f1] read in terms of [f] *)
+  assert (HE1 : forall w, gE f1 w = gE f w) by (intros; unfold gE, view_total_energy; rewrite Hw1; reflexivity).
+  assert (HR1 : forall w, view_total_rewards f1 w = view_total_rewards f w) by (intros; unfold view_total_rewards; rewrite Hw1; reflexivity).
+  assert (HRt1 : forall w t, gR f1 w t = gR f w t) by (intros; unfold gR; rewrite HR1; reflexivity).
+  assert (HO1 : forall w, owed f1 w = owed f w) by (intros; unfold owed; rewrite Hw1; reflexivity).
+  assert (HL1 : w_last (fc_w f1) = L) by (unfold L; rewrite Hw1; reflexivity).
+  assert (DE0 := d_E0 _ _ D). assert (DEfut := d_Efut _ _ D). assert (DRfut := d_Rfut _ _ D).
+  assert (DRnn := d_Rnn _ _ D). assert (DA0 := d_A0 _ _ D). assert (DAfut := d_Afut _ _ D).
+  assert (Dpaid0 := d_paid0 _ _ D). assert (Dused0 := d_used0 _ _ D). assert (Dpaidfut := d_paidfut _ _ D).
+  assert (Dusedfut := d_usedfut _ _ D). assert (DEI := d_EI _ _ D). assert (DPI := d_PI _ _ D).
+  assert (DP0 := d_P0 _ _ D). assert (DCI := d_CI _ _ D). assert (DSI := d_SI _ _ D).
+  setoid_rewrite HE1 in DE0. setoid_rewrite HE1 in DEfut. setoid_rewrite HR1 in DRfut. setoid_rewrite HR1 in DRnn.
+  setoid_rewrite HE1 in DEI. setoid_rewrite HO1 in DEI. setoid_rewrite HE1 in DPI. setoid_rewrite HRt1 in DPI.
+  setoid_rewrite HE1 in DP0. setoid_rewrite HR1 in DP0. setoid_rewrite HRt1 in DCI.
+  rewrite HL1 in *. rewrite Hc1 in *. fold cw in DAfut, DP0, DSI.
+  (* new ghost sums *)
+  set (x := fun w t => sum3 (pay_entries det) w t). set (y := fun w => sum2 (used_entries pop det) w).
+  assert (Hpaid' : forall w t, paid g' w t = paid g w t + x w t) by (intros; unfold paid, g', x; simpl; apply sum3_app).
+  assert (Hused' : forall w, used g' w = used g w + y w) by (intros; unfold used, g', y; simpl; apply sum2_app).
+  assert (Hcred' : forall w t, cred g' w t = cred g w t) by reflexivity.
+  (* the claimed weeks *)
+  set (W := map fst det).
+  assert (HW : NoDup W /\ forall w, In w W -> cw - MAXW <= w < cw /\ exists p, pop = Some p /\ pr_week p <= w).
+  { unfold W. destruct pop as [p|] eqn:Epop.
+    - destruct Hdet as (Hle & Hmap & _). rewrite Hmap. split; [apply zseq_nodup|].
+      intros w Hin. apply zseq_in in Hin. unfold first_claim_week, nr_claim_weeks in Hin.
+      split; [lia|]. exists p. split; [reflexivity | lia].
+    - subst det. split; [constructor | intros w []]. }
+  destruct HW as (HWnd & HWin).
+  assert (Hxy0 : forall w, ~ In w W -> (forall t, x w t = 0) /\ y w = 0).
+  { intros w Hn. split.
+    - intros t. unfold x. apply (pay_entries_sum det w t HWnd). exact Hn.
+    - unfold y. destruct pop as [p|]; [|reflexivity]. rewrite used_entries_sum by exact HWnd.
+      destruct (existsb (Z.eqb w) (map fst det)) eqn:Ex; [apply existsb_in in Ex; contradiction | reflexivity]. }
+  assert (Hxy1 : forall w, In w W -> exists p r, pop = Some p /\ In (w, r) det /\ pr_week p <= w /\
+                   (forall t, x w t = tok_sum r t) /\ y w = energy_at p w /\
+                   r = week_share (view_total_rewards f' w) (energy_at p w) (gE f w)).
+  { intros w Hin. destruct (HWin w Hin) as (_ & p & Hp & Hle).
+    unfold W in Hin. apply in_map_iff in Hin. destruct Hin as ([w0 r] & Hfst & Hin). simpl in Hfst. subst w0.
+    exists p, r. split; [exact Hp|]. split; [exact Hin|]. split; [exact Hle|].
+    split; [intros t; unfold x; apply (pay_entries_sum det w t HWnd); exact Hin|].
+    split.
+    - unfold y. rewrite Hp, used_entries_sum by exact HWnd.
+      assert (Ex : existsb (Z.eqb w) (map fst det) = true) by (apply existsb_in; apply (in_map fst) in Hin; exact Hin).
+      rewrite Ex. reflexivity.
+    - rewrite Hp in Hdet. destruct Hdet as (_ & _ & Hsh). apply (Hsh _ _ Hin). }
+  (* rewards stay non-negative *)
+  assert (Rnn' : forall w, Forall (fun p => 0 <= snd p) (view_total_rewards f' w)).
+  { intros w. destruct (Z.eq_dec w cw) as [->|Hne].
+    - destruct Hcwk as (-> & _). apply DRnn.
+    - destruct (Hweeks w Hne) as [(_ & -> & _)|[(_ & _ & -> & _)|(_ & _ & _ & -> & _)]];
+        [apply DRnn | constructor | apply positive_part_nonneg]. }
+  assert (HRt'nn : forall w t, 0 <= gR f' w t) by (intros; apply tok_sum_nonneg; apply Rnn').
+  assert (HRtnn : forall w t, 0 <= gR f w t) by (intros; apply tok_sum_nonneg; apply DRnn).
+  (* bounds on the new payments *)
+  assert (Xb : forall w t, 0 <= x w t /\ 0 <= y w /\ x w t * gE f w <= gR f' w t * y w /\
+                           (gE f w = 0 -> x w t = 0) /\ (view_total_rewards f' w = [] -> x w t = 0)).
+  { intros w t. destruct (in_dec Z.eq_dec w W) as [Hin|Hn].
+    - destruct (Hxy1 w Hin) as (p & r & _ & _ & _ & Hx & Hy & Hr). rewrite Hx, Hy.
+      pose proof (energy_at_nonneg p w) as He. pose proof (DE0 w) as HE. pose proof (HRt'nn w t) as HRn.
+      unfold week_share in Hr. destruct ((energy_at p w =? 0) || (gE f w =? 0)) eqn:Ez.
+      + subst r. simpl. repeat split; try lia; nia.
+      + apply orb_false_iff in Ez. destruct Ez as (Ez1 & Ez2). apply Z.eqb_neq in Ez1. apply Z.eqb_neq in Ez2.
+        assert (HEp : 0 < gE f w) by lia.
+        destruct (tok_sum_shares_le (view_total_rewards f' w) (energy_at p w) (gE f w) t HEp He (Rnn' w)) as (H1 & H2).
+        rewrite <- Hr in H1, H2. unfold gR. repeat split; try lia.
+        intros Hnil. rewrite Hnil in Hr. subst r. reflexivity.
+    - destruct (Hxy0 w Hn) as (Hx0 & Hy0). rewrite Hx0, Hy0. pose proof (HRt'nn w t). repeat split; lia. }
+  (* users that can still claim a week *)
+  destruct Hinv as (Hok & HBI & _).
+  assert (Hokl : NoDup (map fst (w_prog (fc_w f))) /\ forall u p, In (u, p) (w_prog (fc_w f)) -> pr_week p <= L).
+  { destruct Hok as (H1 & H2). split; [exact H1|]. intros u p Hin. rewrite Forall_forall in H2. apply (H2 _ Hin). }
+  destruct Hokl as (Hndl & Hweekl).
+  assert (Howed' : forall w, w < cw -> owed f' w = owed f w - f_old (owed_at w) pop).
+  { intros w Hw. unfold owed. rewrite Hprog', psum_progress_after.
+    - unfold owed_at at 3. simpl. assert (Ef : (cw <=? w) = false) by (apply Z.leb_gt; lia). rewrite Ef. unfold pop, view_progress. lia.
+    - exact Hndl.
+    - intros _. unfold owed_at. simpl. assert (Ef : (cw <=? w) = false) by (apply Z.leb_gt; lia). rewrite Ef. reflexivity. }
+  assert (Hold : forall w, 0 <= f_old (owed_at w) pop /\ y w <= f_old (owed_at w) pop).
+  { intros w. assert (H0 : 0 <= f_old (owed_at w) pop) by (destruct pop; simpl; [apply owed_at_nonneg | lia]).
+    split; [exact H0|]. destruct (in_dec Z.eq_dec w W) as [Hin|Hn].
+    - destruct (Hxy1 w Hin) as (p & r & Hp & _ & Hle & _ & Hy & _). rewrite Hp, Hy. simpl. unfold owed_at.
+      assert (Et : (pr_week p <=? w) = true) by (apply Z.leb_le; exact Hle). rewrite Et. lia.
+    - destruct (Hxy0 w Hn) as (_ & ->). exact H0. }
+  assert (HEL : L < cw -> gE f L = owed f L).
+  { intros _. destruct HBI as (_ & _ & _ & _ & HEs). unfold gE, view_total_energy. fold L in HEs. rewrite HEs.
+    unfold owed. apply psum_ext. intros [u p] Hin. simpl. unfold c_energy, owed_at.
+    assert (Et : (pr_week p <=? L) = true) by (apply Z.leb_le; apply (Hweekl u p Hin)). rewrite Et. reflexivity. }
+  (* per-week view of the state change *)
+  assert (HE'cw : 0 <= gE f' cw).
+  { pose proof (total_energy_sum f' Hi') as Hs. unfold view_last_global in Hs. rewrite HL' in Hs. unfold gE. rewrite Hs.
+    apply psum_nonneg. intros. apply energy_at_nonneg. }
+  assert (Hcwk2 : gR f' cw = gR f cw) by (unfold gR; destruct Hcwk as (-> & _); reflexivity).
+  assert (Hfut : forall w, cw <= w -> ~ In w W) by (intros w Hw Hin; apply HWin in Hin; lia).
+  (* paid' <= R' whenever something is paid, via the energy and payment invariants *)
+  assert (HEI' : forall w, w < cw -> gE f' w = 0 \/ used g' w + owed f' w <= gE f' w).
+  { intros w Hw. assert (Hne : w <> cw) by lia.
+    assert (Hbase : gE f w = 0 \/ used g w + owed f w <= gE f w).
+    { destruct (Z_lt_le_dec w L) as [HwL|HwL]; [apply DEI; exact HwL|].
+      destruct (Z.eq_dec w L) as [->|HnL].
+      - right. rewrite (Dusedfut L) by lia. rewrite HEL by lia. lia.
+      - left. apply DEfut. lia. }
+    destruct (Hweeks w Hne) as [(He & _)|[(_ & He & _)|(He & _)]]; unfold gE in *; rewrite He.
+    - destruct Hbase as [Hz|Hb]; [left; exact Hz|]. right. rewrite Hused', Howed' by exact Hw.
+      destruct (Hold w) as (H0 & Hy). lia.
+    - left. reflexivity.
+    - destruct Hbase as [Hz|Hb]; [left; exact Hz|]. right. rewrite Hused', Howed' by exact Hw.
+      destruct (Hold w) as (H0 & Hy). lia. }
+  assert (HPI' : forall w t, paid g' w t * gE f' w <= gR f' w t * used g' w).
+  { intros w t. rewrite Hpaid', Hused'. destruct (Xb w t) as (Hx0 & Hy0 & Hxe & HxE & HxR).
+    destruct (Z.eq_dec w cw) as [->|Hne].
+    - rewrite (Dpaidfut cw t) by lia. destruct (Hxy0 cw (Hfut cw ltac:(lia))) as (Hxz & Hyz). rewrite Hxz, Hyz.
+      rewrite Hcwk2. unfold gR. rewrite DRfut by lia. simpl. lia.
+    - pose proof (DPI w t) as Hpi. pose proof (Dused0 w) as Hu0. pose proof (HRtnn w t) as HRn.
+      destruct (Hweeks w Hne) as [(He & Hr & _)|[(_ & He & Hr & _)|(He & Hr0 & Hwin & Hr & _)]].
+      + unfold gE in *. rewrite He. unfold gR in *. rewrite Hr in *. nia.
+      + unfold gE, gR. rewrite He, Hr. simpl. lia.
+      + unfold gE in *. rewrite He.
+        assert (Hp0 : paid g w t = 0) by (apply DP0; [lia | left; exact Hr0]).
+        rewrite Hp0. pose proof (HRt'nn w t). nia. }
+  assert (HPR : forall w t, 0 < x w t -> paid g' w t <= gR f' w t /\ In w W).
+  { intros w t Hx. destruct (in_dec Z.eq_dec w W) as [Hin|Hn]; [|destruct (Hxy0 w Hn) as (Hx0 & _); rewrite Hx0 in Hx; lia].
+    split; [|exact Hin]. destruct (HWin w Hin) as (Hwin & _).
+    destruct (Xb w t) as (_ & _ & _ & HxE & _).
+    assert (Hne : w <> cw) by lia.
+    assert (He : gE f' w = gE f w).
+    { unfold gE. destruct (Hweeks w Hne) as [(He & _)|[(Hc & _)|(He & _)]]; [exact He | unfold cleared_week in Hc; lia | exact He]. }
+    assert (HEp : 0 < gE f w) by (pose proof (DE0 w); destruct (Z.eq_dec (gE f w) 0) as [Hz|Hz]; [specialize (HxE Hz); lia | lia]).
+    pose proof (HPI' w t) as Hpi. rewrite He in Hpi.
+    destruct (HEI' w ltac:(lia)) as [Hz|Hei]; [rewrite He in Hz; lia|]. rewrite He in Hei.
+    assert (Ho : 0 <= owed f' w) by (unfold owed; apply psum_nonneg; intros; apply owed_at_nonneg).
+    pose proof (HRt'nn w t). nia. }
+  constructor.
+  - (* E >= 0 *)
+    intros w. destruct (Z.eq_dec w cw) as [->|Hne]; [exact HE'cw|].
+    unfold gE in *. destruct (Hweeks w Hne) as [(-> & _)|[(_ & -> & _)|(-> & _)]]; [apply DE0 | lia | apply DE0].
+  - (* E = 0 beyond the last updated week *)
+    rewrite HL'. intros w Hw. assert (Hne : w <> cw) by lia.
+    unfold gE in *. destruct (Hweeks w Hne) as [(-> & _)|[(_ & -> & _)|(-> & _)]]; [apply DEfut; lia | reflexivity | apply DEfut; lia].
+  - (* no totals for the running and later weeks *)
+    rewrite HL'. intros w Hw. destruct (Z.eq_dec w cw) as [->|Hne].
+    + destruct Hcwk as (-> & _). apply DRfut. lia.
+    + destruct (Hweeks w Hne) as [(_ & -> & _)|[(_ & _ & -> & _)|(_ & _ & Hwin & _)]]; [apply DRfut; lia | reflexivity | lia].
+  - exact Rnn'.
+  - exact Hnn'.
+  - (* no accumulation for future weeks *)
+    rewrite Hcw'. intros w t Hw. assert (Hne : w <> cw) by lia. unfold gA in *.
+    destruct (Hweeks w Hne) as [(_ & _ & Ha)|[(_ & _ & _ & Ha)|(_ & _ & Hwin & _)]]; [rewrite Ha; apply DAfut; exact Hw | rewrite Ha; apply DAfut; exact Hw | lia].
+  - rewrite Hpb', <- Hp1. apply (d_pb _ _ D).
+  - intros w t. rewrite Hpaid'. pose proof (Dpaid0 w t). destruct (Xb w t) as (Hx0 & _). lia.
+  - intros w. rewrite Hused'. pose proof (Dused0 w). destruct (Xb w 0) as (_ & Hy0 & _). lia.
+  - rewrite HL'. intros w t Hw. rewrite Hpaid', (Dpaidfut w t) by lia. destruct (Hxy0 w (Hfut w Hw)) as (Hx0 & _). rewrite Hx0. lia.
+  - rewrite HL'. intros w Hw. rewrite Hused', (Dusedfut w) by lia. destruct (Hxy0 w (Hfut w Hw)) as (_ & Hy0). rewrite Hy0. lia.
+  - rewrite HL'. exact HEI'.
+  - exact HPI'.
+  - (* nothing paid for a week without total or without energy *)
+    rewrite Hcw'. intros w t Hw Hc. rewrite Hpaid'.
+    destruct (Xb w t) as (_ & _ & _ & HxE & HxR).
+    destruct (Z.eq_dec w cw) as [->|Hne].
+    + rewrite (Dpaidfut cw t) by lia. destruct (Hxy0 cw (Hfut cw ltac:(lia))) as (Hx0 & _). rewrite Hx0. lia.
+    + destruct (Hweeks w Hne) as [(He & Hr & _)|[(Hcl & _)|(He & Hr0 & Hwin & Hr & _)]].
+      * unfold gE in *. rewrite He, Hr in Hc.
+        rewrite (DP0 w t Hw Hc). destruct Hc as [Hc|Hc]; [rewrite <- Hr in Hc; rewrite (HxR Hc); lia | rewrite (HxE Hc); lia].
+      * unfold cleared_week in Hcl. lia.
+      * rewrite (DP0 w t Hw (or_introl Hr0)).
+        destruct Hc as [Hc|Hc]; [rewrite (HxR Hc); lia | unfold gE in *; rewrite He in Hc; rewrite (HxE Hc); lia].
+  - (* never more than credited *)
+    intros w t. rewrite Hcred'.
+    assert (Hmax : Z.max (gR f' w t) (paid g' w t) <= Z.max (gR f' w t) (paid g w t)).
+    { rewrite Hpaid'. destruct (Xb w t) as (Hx0 & _). destruct (Z.eq_dec (x w t) 0) as [Hz|Hz]; [rewrite Hz; lia|].
+      destruct (HPR w t ltac:(lia)) as (Hle & _). rewrite Hpaid' in Hle. lia. }
+    eapply Z.le_trans; [|apply (DCI w t)].
+    assert (Hgoal : gA f' w t + Z.max (gR f' w t) (paid g w t) <= gA f1 w t + Z.max (gR f w t) (paid g w t)); [|lia].
+    unfold gA. destruct (Z.eq_dec w cw) as [->|Hne].
+    + destruct Hcwk as (_ & Ha). rewrite Ha, Hcwk2. lia.
+    + pose proof (HRtnn w t) as HRn. pose proof (Dpaid0 w t) as Hp0.
+      destruct (Hweeks w Hne) as [(_ & Hr & Ha)|[(_ & _ & Hr & Ha)|(_ & Hr0 & Hwin & Hr & Ha)]].
+      * rewrite Ha. unfold gR. rewrite Hr. lia.
+      * rewrite Ha. unfold gR at 1. rewrite Hr. simpl. lia.
+      * rewrite Ha. unfold gR. rewrite Hr, Hr0. simpl.
+        rewrite (tok_sum_positive_part (fun t0 => view_accumulated f1 w t0) toks t Hnd (fun t0 => DA0 w t0)).
+        assert (Hpz : paid g w t = 0) by (apply DP0; [lia | left; exact Hr0]). rewrite Hpz.
+        pose proof (DA0 w t). destruct (mem t toks); lia.
+  - (* the balances cover what can still be claimed *)
+    rewrite Hcw'. intros t Ht.
+    rewrite (pay_out_effect _ _ _ Hpay t), tok_sum_unlocked by exact Ht. rewrite tok_sum_flat.
+    rewrite <- (wsum_pay_entries det t (cw - MAXW) window_len HWnd).
+    2:{ intros w Hin. rewrite window_len_Z. destruct (HWin w Hin) as (Hwin & _). lia. }
+    fold (x) . 
+    assert (Hpot : forall w, cw - MAXW <= w < cw - MAXW + Z.of_nat window_len ->
+                    pot f' g' t w = pot f1 g t w + (- x w t)).
+    { intros w Hwr. rewrite window_len_Z in Hwr. unfold pot. rewrite Hpaid', HRt1.
+      destruct (Xb w t) as (Hx0 & _).
+      destruct (Z.eq_dec w cw) as [->|Hne].
+      - destruct Hcwk as (_ & Ha). unfold gA. rewrite Ha, Hcwk2.
+        destruct (Hxy0 cw (Hfut cw ltac:(lia))) as (Hxz & _). rewrite Hxz. lia.
+      - assert (Hle : 0 < x w t -> paid g w t + x w t <= gR f' w t).
+        { intros Hx. destruct (HPR w t Hx) as (Hle & _). rewrite Hpaid' in Hle. exact Hle. }
+        unfold gA. pose proof (Dpaid0 w t) as Hp0.
+        destruct (Hweeks w Hne) as [(_ & Hr & Ha)|[(Hcl & _)|(_ & Hr0 & Hwin & Hr & Ha)]].
+        + rewrite Ha. unfold gR in *. rewrite Hr in *. destruct (Z.eq_dec (x w t) 0) as [Hz|Hz]; [rewrite Hz; lia|].
+          specialize (Hle ltac:(lia)). lia.
+        + unfold cleared_week in Hcl. lia.
+        + rewrite Ha. unfold gR in *. rewrite Hr, Hr0 in *. simpl.
+          rewrite (tok_sum_positive_part (fun t0 => view_accumulated f1 w t0) toks t Hnd (fun t0 => DA0 w t0)) in *.
+          assert (Hpz : paid g w t = 0) by (apply DP0; [lia | left; exact Hr0]). rewrite Hpz in *.
+          pose proof (DA0 w t). destruct (Z.eq_dec (x w t) 0) as [Hz|Hz].
+          * rewrite Hz. destruct (mem t toks); lia.
+          * specialize (Hle ltac:(lia)). destruct (mem t toks); lia. }
+    erewrite wsum_ext; [|exact Hpot]. rewrite wsum_add.
+    assert (Hneg : wsum (fun w => - x w t) (cw - MAXW) window_len = - wsum (fun w => sum3 (pay_entries det) w t) (cw - MAXW) window_len).
+    { clear. unfold x. generalize (cw - MAXW). induction window_len as [|n IH]; intros a; [reflexivity|]. rewrite !wsum_S, IH. lia. }
+    rewrite Hneg. pose proof (DSI t Ht) as Hs. rewrite Hb1 in Hs. lia.
+Qed.
+
+(** ------------------------------------------------------------------ every operation preserves both invariants *)
+Definition calm (op : fop) : bool :=
+  match op with
+  | SetEnergy _ _ _ | SetEnergyRaw _ _ _ _ | Pause _ _ | AddToken _ _ | RemoveToken _ _
+  | AddContract _ _ | RemoveContract _ _ | WlAdd _ _ | WlRm _ _ => true
+  | _ => false
+  end.
+
+Lemma calm_frame f op f' outs det : calm op = true -> step f op = Ok (f', outs, det) ->
+  fc_w f' = fc_w f /\ (forall w t, view_accumulated f' w t = view_accumulated f w t) /\
+  fc_bal f' = fc_bal f /\ fc_per_block f' = fc_per_block f /\ cur_week f' = cur_week f.
+Proof.
+  destruct op; simpl; try discriminate; intros _.
+  - unfold ep_set_energy. destruct ((0 <=? amt) && (0 <=? tok)); [|discriminate]. intros Heq; inversion Heq; subst. repeat split.
+  - unfold ep_set_energy_raw. destruct ((0 <=? ep) && (0 <=? tok)); [|discriminate]. intros Heq; inversion Heq; subst. repeat split.
+  - unfold ep_pause. destruct (owner_only c); [|discriminate]. intros Heq; inversion Heq; subst. repeat split.
+  - unfold ep_add_token. destruct (owner_only c); [|discriminate]. intros Heq; inversion Heq; subst. repeat split.
+  - unfold ep_remove_token. destruct (owner_only c); [|discriminate]. intros Heq; inversion Heq; subst. repeat split.
+  - unfold ep_add_contract. destruct (owner_only c); [|discriminate]. destruct (is_sc a); [|discriminate].
+    intros Heq; inversion Heq; subst. repeat split.
+  - unfold ep_remove_contract. destruct (owner_only c); [|discriminate]. intros Heq; inversion Heq; subst. repeat split.
+  - unfold ep_wl_add. destruct (owner_only c); [|discriminate]. destruct (negb (mem a (fc_wl f))); [|discriminate].
+    intros Heq; inversion Heq; subst. repeat split.
+  - unfold ep_wl_rm. destruct (owner_only c); [|discriminate]. destruct (mem a (fc_wl f)); [|discriminate].
+    intros Heq; inversion Heq; subst. repeat split.
+Qed.
+
+Lemma extra_credit_sum f w t :
+  sum3 (extra_credit f) w t =
+  if (cur_week f - 1 =? w) && (LOCKED =? t)
+  then (if fc_lock_week f =? cur_week f then 0 else fc_per_block f * BLOCKS_IN_WEEK) else 0.
+Proof.
+  unfold extra_credit. destruct (fc_lock_week f =? cur_week f).
+  - change (sum3 [] w t) with 0. destruct ((cur_week f - 1 =? w) && (LOCKED =? t)); reflexivity.
+  - unfold sum3. cbn [fold_right fst snd]. destruct ((cur_week f - 1 =? w) && (LOCKED =? t)); lia.
+Qed.
+
+Lemma DInv_accumulate f g : FInv f -> DInv f g ->
+  DInv (accumulate_additional f (cur_week f)) (mkG (g_paid g) (g_used g) (g_cred g ++ extra_credit f)).
+Proof.
+  intros Hi D. pose proof weekly_params as (_ & _ & HB). pose proof (d_pb _ _ D) as Hpb.
+  destruct (accumulate_additional_env f (cur_week f)) as (e1 & e2 & _ & e4 & _).
+  set (a := if fc_lock_week f =? cur_week f then 0 else fc_per_block f * BLOCKS_IN_WEEK).
+  assert (H1 : fc_w (accumulate_additional f (cur_week f)) = fc_w f) by apply accumulate_additional_w.
+  assert (H2 : cur_week (accumulate_additional f (cur_week f)) = cur_week f) by (unfold cur_week at 1; rewrite e1, e2; reflexivity).
+  assert (H3 : 0 <= fc_per_block (accumulate_additional f (cur_week f))).
+  { unfold accumulate_additional. destruct (fc_lock_week f =? cur_week f); simpl; exact Hpb. }
+  assert (H4 : 0 <= a) by (unfold a; destruct (fc_lock_week f =? cur_week f); nia).
+  assert (H5 : cur_week f - 1 <= cur_week f) by lia.
+  assert (H6 : forall w t, view_accumulated (accumulate_additional f (cur_week f)) w t =
+                           view_accumulated f w t + (if (cur_week f - 1 =? w) && (LOCKED =? t) then a else 0)).
+  { intros w t. rewrite accumulate_additional_acc. rewrite (Z.eqb_sym w), (Z.eqb_sym t). unfold a.
+    destruct (fc_lock_week f =? cur_week f); cbn [negb andb];
+      destruct (cur_week f - 1 =? w); cbn [andb]; try destruct (LOCKED =? t); lia. }
+  assert (H7 : forall t, t <> LOCKED -> aget (fc_bal (accumulate_additional f (cur_week f))) t =
+                                        aget (fc_bal f) t + (if LOCKED =? t then a else 0)).
+  { intros t Ht. rewrite e4. destruct (LOCKED =? t) eqn:E; [apply Z.eqb_eq in E; congruence | lia]. }
+  assert (H8 : LOCKED <> LOCKED -> cur_week f - MAXW <= cur_week f - 1) by (intros Hc; congruence).
+  apply (DInv_credit f _ g _ _ _ Hi D H1 H2 H3 H4 H5 H6 H7 H8).
+  intros w t. apply extra_credit_sum.
+Qed.
+
+Lemma gstep_inv f g op : FInv f -> DInv f g ->
+  FInv (fst (gstep (f, g) op)) /\ DInv (fst (gstep (f, g) op)) (snd (gstep (f, g) op)).
+Proof.
+  intros Hi D. unfold gstep. destruct (step f op) as [[[f' outs] det]|] eqn:Es; [|simpl; split; assumption].
+  simpl. split; [eapply step_finv; eassumption|].
+  pose proof (step_finv _ _ _ _ _ Hi Es) as Hi'.
+  destruct (calm op) eqn:Ec.
+  - destruct (calm_frame _ _ _ _ _ Ec Es) as (c1 & c2 & c3 & c4 & c5).
+    assert (Hg : match op with
+                 | Deposit _ tok _ amt => mkG (g_paid g) (g_used g) (g_cred g ++ [(cur_week f, tok, amt)])
+                 | Claim c orig _ => mkG (g_paid g ++ pay_entries det) (g_used g ++ used_entries (view_progress f (claim_user c orig)) det) (g_cred g ++ extra_credit f)
+                 | SetPerBlock _ _ => mkG (g_paid g) (g_used g) (g_cred g ++ extra_credit f)
+                 | _ => g end = g) by (destruct op; try discriminate; reflexivity).
+    rewrite Hg. apply (DInv_ext f); assumption.
+  - destruct op; try discriminate; simpl in Es.
+    + (* Advance *)
+      unfold ep_advance in Es. destruct (0 <=? n) eqn:En; [|discriminate]. apply Z.leb_le in En.
+      inversion Es; subst. apply DInv_advance; assumption.
+    + (* Deposit *)
+      destruct (deposit_spec _ _ _ _ _ _ _ _ Es) as (cw & Hcw & Hw & Ha & Hb & _ & _ & Hamt & Hnl & Hn0).
+      pose proof (current_week_cur _ _ Hcw) as Hcur. subst cw.
+      assert (Hq : quiet (Deposit c tok nonce amt) = true) by reflexivity.
+      destruct (quiet_frame _ _ _ _ _ Hq Es) as (_ & q2 & q3 & _).
+      pose proof max_weeks_nonneg as HM.
+      apply (DInv_credit f f' g (cur_week f) tok amt); try assumption.
+      * unfold cur_week. rewrite q2, q3. reflexivity.
+      * (* per block unchanged *)
+        unfold ep_deposit in Es. destruct ((0 <=? amt) && (0 <=? nonce)); [|discriminate].
+        destruct (mem c (fc_contracts f)); [|discriminate]. destruct (mem tok (h_tokens (fc_h f))); [|discriminate].
+        apply bind_ok in Es. destruct Es as (cw & _ & Es). apply bind_ok in Es. destruct Es as (f1 & Hf1 & Es).
+        inversion Es; subst; clear Es. simpl. pose proof (d_pb _ _ D).
+        destruct (0 <? nonce); [destruct (tok =? LOCKED); [|discriminate]|]; inversion Hf1; subst; simpl; assumption.
+      * lia.
+      * intros w t. rewrite Ha. rewrite (Z.eqb_sym w), (Z.eqb_sym t). reflexivity.
+      * intros t Ht. rewrite Hb. destruct (tok =? t) eqn:E.
+        -- apply Z.eqb_eq in E. subst t. rewrite Z.eqb_refl. destruct (nonce =? 0) eqn:E0; [reflexivity|].
+           apply Z.eqb_neq in E0. exfalso. apply Ht. apply Hnl. lia.
+        -- rewrite (Z.eqb_sym t tok), E. simpl. lia.
+      * intros _. lia.
+      * intros w t. simpl. destruct ((cur_week f =? w) && (tok =? t)); lia.
+    + (* Claim *)
+      destruct (ep_claim_inv _ _ _ _ _ _ _ Es) as (_ & dest & Hc).
+      pose proof (DInv_accumulate f g Hi D) as D1.
+      pose proof (claim_summary _ _ _ _ _ _ Hi (d_A0 _ _ D) (d_pb _ _ D) Hc) as Hts.
+      destruct (accumulate_additional_env f (cur_week f)) as (e1 & e2 & _ & e4 & _).
+      assert (H1 : fc_w (accumulate_additional f (cur_week f)) = fc_w f) by apply accumulate_additional_w.
+      assert (H2 : cur_week (accumulate_additional f (cur_week f)) = cur_week f) by (unfold cur_week at 1; rewrite e1, e2; reflexivity).
+      assert (H3 : fc_per_block (accumulate_additional f (cur_week f)) = fc_per_block f).
+      { unfold accumulate_additional. destruct (fc_lock_week f =? cur_week f); reflexivity. }
+      exact (touch_preserves f (accumulate_additional f (cur_week f)) f' (claim_user c orig) det
+               (mkG (g_paid g) (g_used g) (g_cred g ++ extra_credit f)) Hi Hi' D1 H1 e4 H2 H3 Hts).
+    + (* UpdateEnergy *)
+      destruct (update_summary _ _ _ _ _ _ Hi (d_A0 _ _ D) Es) as (Hts & ->).
+      pose proof (touch_preserves f f f' u [] g Hi Hi' D eq_refl eq_refl eq_refl eq_refl Hts) as D'.
+      simpl in D'. rewrite app_nil_r in D'.
+      assert (Hu : used_entries (view_progress f u) [] = []) by (destruct (view_progress f u); reflexivity).
+      rewrite Hu, app_nil_r in D'. destruct g; exact D'.
+    + (* SetPerBlock *)
+      unfold ep_set_per_block in Es. destruct (owner_only c); [|discriminate]. destruct (0 <=? amt) eqn:Ea; [|discriminate].
+      apply Z.leb_le in Ea. apply bind_ok in Es. destruct Es as (cw & Hcw & Es). inversion Es; subst; clear Es.
+      pose proof (current_week_cur _ _ Hcw) as Hcur. subst cw.
+      pose proof (DInv_accumulate f g Hi D) as D1.
+      set (f1 := accumulate_additional f (cur_week f)) in *.
+      assert (D2 : DInv (with_lock f1 (fc_lock_week f1) amt) (mkG (g_paid g) (g_used g) (g_cred g ++ extra_credit f))).
+      { destruct D1. constructor; try assumption. }
+      exact D2.
+Qed.
+
+Lemma grun_inv ops : forall f g, FInv f -> DInv f g ->
+  FInv (fst (grun (f, g) ops)) /\ DInv (fst (grun (f, g) ops)) (snd (grun (f, g) ops)).
+Proof.
+  unfold grun. induction ops as [|op t IH]; intros f g Hi D; cbn [fold_left]; [split; assumption|].
+  destruct (gstep_inv f g op Hi D) as (Hi' & D'). destruct (gstep (f, g) op) as [f' g'] eqn:E. cbn [fst snd] in *.
+  apply IH; assumption.
+Qed.
+
+(** over any history: what was paid out for a (week, token) never exceeds what was deposited for it,
+    and neither does the week's frozen total *)
+Lemma paid_le_credited epoch ops w t :
+  let g := snd (grun (init_fc epoch, g0) ops) in let f := fst (grun (init_fc epoch, g0) ops) in
+  0 <= paid g w t /\ paid g w t <= cred g w t /\ gR f w t + gA f w t <= cred g w t.
+Proof.
+  intros g f. destruct (grun_inv ops _ _ (init_finv epoch) (init_dinv epoch)) as (Hi & D). fold f g in Hi, D.
+  pose proof (d_CI _ _ D w t). pose proof (d_A0 _ _ D w t). pose proof (d_paid0 _ _ D w t). unfold gA in *. lia.
+Qed.
+
+(** ... and the collector's balance of every fungible fee token covers everything that can still be
+    claimed: over the claimable window, accumulated deposits plus the unpaid part of the frozen totals *)
+Lemma balance_covers epoch ops t : t <> LOCKED ->
+  let g := snd (grun (init_fc epoch, g0) ops) in let f := fst (grun (init_fc epoch, g0) ops) in
+  wsum (pot f g t) (cur_week f - MAXW) window_len <= aget (fc_bal f) t /\
+  (forall w, 0 <= pot f g t w).
+Proof.
+  intros Ht g f. destruct (grun_inv ops _ _ (init_finv epoch) (init_dinv epoch)) as (Hi & D). fold f g in Hi, D.
+  split; [apply (d_SI _ _ D); exact Ht | intros w; apply pot_nonneg; exact D].
+Qed.
